@@ -347,6 +347,32 @@ def ro_array(g, probe, acc):
             worst = int(np.argmax(np.abs(s_big - big_s)))
             if not abs(s_big[worst] - big_s[worst]) <= _a(g, float(big_s[worst])):
                 out.append((_key("stress/not-the-inverse-of-strain/mesh-sized-array"), {"elements": len(big_e), "stress": float(big_s[worst]), "got": float(s_big[worst])}))
+    # array LAYOUTS ("array containers"): the same numbers as a 2-D block in C order, as a transposed view and in Fortran
+    # order (what DataFrame.values / a (nodes, load steps) table deliver): every element keeps its own answer
+    m2 = len(axis) // 2
+    if m2 >= 2:
+        s2d = np.array(axis[:2 * m2], dtype=float).reshape(2, m2)
+        e2d = np.array(el[:2 * m2], dtype=float).reshape(2, m2)
+        for lname, mk in (("2d-C-order", lambda a: a.copy()), ("2d-transposed-view", lambda a: a.copy().T),
+                          ("2d-Fortran-order", lambda a: np.asfortranarray(a))):
+            S, Ee = mk(s2d), mk(e2d)
+            want_s = mk(s2d)
+            got_e = np.asarray(ro.strain(S), dtype=float)
+            st8, got_s = _inv(g, ro.stress, Ee)
+            st9, got_ds = _inv(g, ro.delta_stress, 2.0 * Ee)
+            acc.evaluations += 3
+            if got_e.shape != S.shape or not np.array_equal(got_e, mk(e2d)):
+                out.append((_key("strain/array-layout/%s-differs-from-the-flat-array" % lname), {"stresses": S.tolist(), "got": got_e.tolist()}))
+            for what, stx, got, scale in (("stress", st8, got_s, 1.0), ("delta_stress", st9, got_ds, 2.0)):
+                if stx == "raised":
+                    out.append((_key("%s/raises-%s/array-layout/%s" % (what, type(got).__name__, lname)), {"message": str(got)[:160]}))
+                    continue
+                got = np.asarray(got, dtype=float)
+                exp = np.array([[scale * ref.ro_stress(E, K, n, x) for x in row] for row in Ee.tolist()])
+                tolm = np.array([[scale * _a(g, x / scale) if what == "stress" else 2 * _ad(x / 2) for x in row] for row in exp.tolist()])
+                if got.shape != Ee.shape or not np.all(np.abs(got - exp) <= tolm):
+                    out.append((_key("%s/array-layout/%s-not-the-inverse-element-by-element" % (what, lname)),
+                                {"strains": (scale * Ee).tolist(), "got": got.tolist(), "expected": exp.tolist()}))
     de = np.asarray(ro.delta_strain(arr), dtype=float)
     acc.evaluations += 1
     for s, x in zip(axis, de.tolist()):
@@ -816,6 +842,13 @@ def run_history(g, acc):
     mat, depth, prefix = tuple(g["material"]), g["depth"], tuple(g["prefix"])
     seen = {}
     nops = len(_H_OPS)
+    # the reference answer of every question is the one given when it is asked FIRST on a fresh world (for each filling of
+    # the argument buffers), not the one of whatever history happens to be enumerated first in this shard
+    rs, re_ = _H_OPS.index(("caller", "refill_S")), _H_OPS.index(("caller", "refill_E"))
+    for pre in ((), (rs,), (re_,), (rs, re_)):
+        for oi in range(nops):
+            if _H_OPS[oi][0] != "caller":
+                history_run(mat, pre + (oi,), Acc(), seen)
     for d in range(max(1, len(prefix)), depth + 1):
         for rest in itertools.product(range(nops), repeat=d - len(prefix)):
             seq = prefix + rest
@@ -860,9 +893,11 @@ def replay(case):
     if p == "history":
         # the 'same answer in every history' oracle needs the first answer: ask the question alone first
         seen = {}
-        for oi in probe["seq"]:
-            if _H_OPS[oi][0] != "caller":
-                history_run(tuple(probe["material"]), [i for i in probe["seq"][:probe["seq"].index(oi)] if _H_OPS[i][0] == "caller"] + [oi], Acc(), seen)
+        rs, re_ = _H_OPS.index(("caller", "refill_S")), _H_OPS.index(("caller", "refill_E"))
+        for pre in ((), (rs,), (re_,), (rs, re_)):
+            for oi in range(len(_H_OPS)):
+                if _H_OPS[oi][0] != "caller":
+                    history_run(tuple(probe["material"]), pre + (oi,), Acc(), seen)
         return history_run(tuple(probe["material"]), probe["seq"], acc, seen)
     if p == "point":
         return ro_point(g, probe, acc)[0]
